@@ -178,11 +178,37 @@ def main(ctx, args):
                           {"what": x["what"], "detail": x["detail"], "trace_line": x["line"], "window": s and s["size"],
                            "keys_hex": s and s["keys"].hex(), "keys": s and s["keys"].decode("utf-8", "replace")},
                           {"kind": x["what"]})
+    # ---- where the window goes: scroll commands, H M L and edits in small windows against Vi!Scroll / Vi!WFix ----
+    nscr = 48 if ctx.quick else 1200
+    wscripts = vidrive.gen(ctx, "scroll", nscr // 2, 40, ai=1, rows=6) + vidrive.gen(ctx, "scroll", nscr // 4, 40, ai=0, rows=3) + \
+        vidrive.gen(ctx, "scroll", nscr // 4, 40, ai=1, rows=11)
+    for sc in wscripts:
+        for s_ in sc["steps"]:
+            if not s_["thm"]:
+                raise Infra("Vi.tla violates its own properties (Thm) at seed %s" % sc["seed"])
+    with ThreadPoolExecutor(NCPU) as ex:
+        wres = list(ex.map(lambda s_: vidrive.run_script(ctx, s_), wscripts))
+    st.update(window_scripts=len(wscripts), window_commands=0, scroll_commands=0, window_mismatch_other=0)
+    for sc, r in zip(wscripts, wres):
+        st["window_commands"] += r["checked"]
+        st["scroll_commands"] += sum(1 for s_ in sc["steps"][:r["checked"]] if s_["kind"] == "scr")
+        if r["status"] == "mismatch":
+            if r["field"] == "window" or r["kind"] == "scr":
+                st["violations"] += 1
+                ctx.violation("after %r (%s, step %d of seed %s, %d text rows, history %s): %s - expected cursor line %s top %s, recorded line %s top %s" %
+                              (r["keys"], r["sub"], r["step"], r["seed"], sc["rows"], r["history"][-4:-1], r["field"], r["expected"]["row"],
+                               r["expected"].get("top"), r["got"]["row"], r["got"]["top"]),
+                              {k: r[k] for k in ("seed", "step", "field", "kind", "sub", "keys", "history", "expected", "got")},
+                              {"kind": "window", "field": r["field"], "cmd": r["sub"]})
+            else:
+                st["window_mismatch_other"] += 1
     for s in sess[:2]:
         samples.append({"window": s["size"], "keys": s["keys"].decode("utf-8", "replace")[:160], "command_boundaries": s["nvi"]})
     cov = {"states": st["events"] + len(shards), "transitions": st["events"], "traces_validated_against_impl": st["sessions"], "samples": samples,
            "evaluations": st["checked"], "distinct_nontrivial": st["checked"],
-           "rule": "one evaluation = one command boundary at which the whole window (every row) and the cursor cell were compared with a repaint "
+           "rule": "(the second part: scroll commands ^E ^Y ^D ^U ^F ^B z<CR> z. z-, H M L and edits in windows of 3, 6 and 11 text rows, "
+                   "window top and cursor compared with Vi!Scroll / Vi!WFix after every command) "
+                   "one evaluation = one command boundary at which the whole window (every row) and the cursor cell were compared with a repaint "
                    "of the recorded buffer window; sessions = Gen_Vi key streams with scroll / redraw / option / ex keys inserted, windows "
                    "%s" % SIZES, "stats": st,
            "explanation": "states/transitions = trace events consumed by TLC under TraceTerm (terminal control functions and command boundaries); "
